@@ -90,6 +90,37 @@ CHECKS = {
         note="Trusted: fingerprints (Display of values, Debug of Ast); the single-shot table.",
         technique="runtime monitoring: offline history checker against fresh-process ground truth",
     ),
+    "C14": dict(
+        text="Differential monitoring of the serde bridge: a zoo of derived types is pushed through the library's Serializer and Deserializer and every outcome "
+        "is compared with what serde_json itself produces for the same value / the same JSON, including the Ok/Err decision on mismatched shapes.",
+        note="Trusted: serde_json and serde_derive (they are the definition the statement gives).",
+        technique="runtime monitoring: differential oracle against serde_json over a generated type zoo",
+    ),
+    "C15": dict(
+        text="History monitoring: random register/deregister histories are replayed on a real Runtime while recording closures with unique ids log every "
+        "invocation (id, arguments, context expression); a small sequential model of the registry and an independent signature check predict every probe.",
+        note="Trusted: the 15-line registry model; the recording closures' thread-local log; reference functions for built-ins.",
+        technique="runtime monitoring: event-log checking of histories against an executable sequential model",
+    ),
+    "C16": dict(
+        text="Concurrency monitoring of the sync build: compile-time Send/Sync obligations; native multi-threaded stress comparing every result with the "
+        "sequential one; re-executed first-use races of the default runtime widened by an injected delay; the same workload under Miri (many scheduler "
+        "seeds) and ThreadSanitizer. Held on the schedules observed.",
+        note="Trusted: rustc's auto-trait checking, Miri's data-race detector, ThreadSanitizer (-Zbuild-std); schedules are sampled, not enumerated.",
+        technique="runtime monitoring: Miri + ThreadSanitizer + result-comparing multi-threaded stress with injected delays",
+    ),
+    "C17": dict(
+        text="Configuration monitoring: one deterministic program is built under every feature set (nightly default/sync/specialized/sync+specialized, stable "
+        "default) and its recorded outcome logs are compared line by line; inside each build the specialised conversions are compared with serde's image.",
+        note="Trusted: determinism of the matrix program given its seed; serde_json for the conversion image.",
+        technique="runtime monitoring: offline comparison of recorded outcome logs across build configurations",
+    ),
+    "C18": dict(
+        text="Process-boundary monitoring of the jp binary: generated invocations (argv, stdin, files, flags) are executed as subprocesses and exit status, "
+        "stdout and stderr are compared with what the library, called in-process on the same texts, says must happen; strace observes that --ast reads no input.",
+        note="Trusted: the in-process library call as the definition of 'what the library computes'; strace for the syscall observation.",
+        technique="runtime monitoring: subprocess exit/stdout/stderr monitor against the in-process library + strace",
+    ),
 }
 
 ENGINES = [
@@ -105,6 +136,9 @@ ENGINES = [
         "kind_free_text": "independent reference model: lexer, strict ABNF/Pratt recognizer producing a pipeline normal form, evaluator, 26 functions, "
         "signature table, generators; depends on serde_json only, not on jmespath",
     },
+    {"name": "conc", "path": "harness/conc", "kind_free_text": "multi-threaded C16 workloads (native, Miri, ThreadSanitizer)"},
+    {"name": "matrix", "path": "harness/matrix", "kind_free_text": "C17 deterministic program built under every feature set"},
+    {"name": "jpbuild", "path": "harness/jpbuild", "kind_free_text": "builds jmespath-cli/src/main.rs offline for C18"},
     {"name": "orchestrator", "path": "py/orchestrate.py", "kind_free_text": "snapshot/build/shard/merge, known-findings matching, evidence and replay writer"},
 ]
 
